@@ -207,6 +207,8 @@ func (e *Enc) compileIdent(c *SpecCtx, name string) CE {
 			fail("%s: no result here", c.what)
 		}
 		return e.valCE(c, c.results[0])
+	case "$alloc": // the allocation mark: every existing reference is >= it
+		return CE{T: e.alloc(c.st), Typ: tMath}
 	case "MaxInt64":
 		return CE{T: "9223372036854775807", Typ: tMath}
 	case "MinInt64":
@@ -598,6 +600,11 @@ func (e *Enc) compileCallExpr(c *SpecCtx, x *Expr) CE {
 			fail("%s: update() on non-ghost-map", c.what)
 		}
 		return CE{T: fmt.Sprintf("(store %s %s %s)", m.T, k.T, v.T), Arr: m.Arr}
+	case "slicein": // slicein(x): the []byte held by interface value x
+		argn(1)
+		a := e.compile(c, x.Args[0])
+		e.B.declTop("box.Slice", "(declare-fun box.Slice (Int) Slice)")
+		return CE{T: "(box.Slice (ival " + a.T + "))", Typ: types.NewSlice(types.Typ[types.Byte])}
 	case "arr": // arr(s): identity of a slice's backing array (0 for nil)
 		argn(1)
 		a := e.compile(c, x.Args[0])
@@ -681,6 +688,11 @@ func (e *Enc) declSpecFun(sf *SpecFun) {
 }
 
 func (e *Enc) lookupType(name string) types.Type {
+	if obj := types.Universe.Lookup(name); obj != nil {
+		if tn, ok := obj.(*types.TypeName); ok {
+			return tn.Type()
+		}
+	}
 	for _, b := range types.Typ {
 		if b.Name() == name {
 			return b
